@@ -196,6 +196,13 @@ def run_case(spec):
             tab[int(np.asarray(zoo.train_args(name, ds, 'index')[0]).ravel()[0]), 0] = val
             est = zoo.make(name, ds, preprocessor=tab)
             evals += expect_value_error(viol, sigs, name + '.fit', mal + '_via_indices', pre, est.fit, *zoo.train_args(name, ds, 'index'))
+        # history: a FITTED estimator (array preprocessor A) gets a malformed table B via set_params, then indices again
+        for mal, val in (('replaced_table_nan', np.nan), ('replaced_table_inf', np.inf)):
+            tab = ds.X.copy()
+            tab[int(np.asarray(zoo.train_args(name, ds, 'index')[0]).ravel()[0]), 0] = val
+            est = zoo.make(name, ds, preprocessor=ds.X.copy()).fit(*zoo.train_args(name, ds, 'index'))
+            est.set_params(preprocessor=tab)
+            evals += expect_value_error(viol, sigs, name + '.fit', mal + '_via_indices', pre, est.fit, *zoo.train_args(name, ds, 'index'))
     # ---------------- query methods on a fitted estimator
     est = zoo.fit(name, ds, **over)
     Q = ds.X[:6].copy()
